@@ -15,7 +15,7 @@ import (
 func init() {
 	register(&propDef{
 		ID:          "C01",
-		Explanation: "Decides, for ALL sites in the current source: every dynamic string that reaches an HTML text/attribute sink — in the runtime library (SSA classification of every written operand in packages templ, templ/runtime, templ/safehtml) and in every statement the generator can emit (GEM: emission paths of generator.go parsed as Go) — passes through html.EscapeString, or is a constant / safe alphabet / a listed trusted field; attribute-value sinks sit between matching literal quotes; templ.EscapeString is html.EscapeString; R6 the output buffer type hands every byte to its bufio.Writer and never writes to the underlying writer without flushing first (its forwarding methods are exempt from R1, so this is what keeps escaped text in the position it was escaped for). R7 in the generator, text computed from a Go expression (Expression.Value) never reaches a literal-markup sink (a fabricated parser.Text, or the literal writer) — it may only be copied into the program as code. NOT decided: an HTML5 tokenizer's behaviour on the output (trusted base: html.EscapeString escapes & < > \" '), attribute names arriving as spread-map keys, user-constructed ComponentScript values. R8 a loop that writes the elements of a sequence one after the other is left early only with the error of a write (an empty string is a write of 0 bytes).",
+		Explanation: "Decides, for ALL sites in the current source: every dynamic string that reaches an HTML text/attribute sink — in the runtime library (SSA classification of every written operand in packages templ, templ/runtime, templ/safehtml) and in every statement the generator can emit (GEM: emission paths of generator.go parsed as Go) — passes through html.EscapeString, or is a constant / safe alphabet / a listed trusted field; attribute-value sinks sit between matching literal quotes; templ.EscapeString is html.EscapeString; R6 the output buffer type hands every byte to its bufio.Writer and never writes to the underlying writer without flushing first (its forwarding methods are exempt from R1, so this is what keeps escaped text in the position it was escaped for). R7 in the generator, text computed from a Go expression (Expression.Value) never reaches a literal-markup sink (a fabricated parser.Text, or the literal writer) — it may only be copied into the program as code. NOT decided: an HTML5 tokenizer's behaviour on the output (trusted base: html.EscapeString escapes & < > \" '), attribute names arriving as spread-map keys, user-constructed ComponentScript values. R8 a loop that writes the elements of a sequence one after the other is left early only with the error of a write (an empty string is a write of 0 bytes). R7 also: text returned by a helper of the generator that is handed a whole parser.Expression counts as text computed from a Go expression.",
 		Assumptions: []string{"html.EscapeString escapes & < > \" ' and leaves everything else unchanged", "generated code is what generator.go emits (committed _templ.go files are covered separately in the thorough tier)"},
 		Trusted:     []string{"go/types", "x/tools go/packages, go/ssa", "html.EscapeString"},
 		Run:         runC01,
@@ -700,6 +700,16 @@ func goTextNeverLiteralMarkup(c *Ctx, rule string) {
 				case *ast.Ident:
 					if ob := info.ObjectOf(x); ob != nil && tainted[ob] {
 						found = true
+					}
+				case *ast.CallExpr:
+					// a helper of the package that is handed the whole Expression (constantStringExpression(e)): what it
+					// returns is computed from the expression's text
+					if fn := calleeOf(info, x); fn != nil && fn.Pkg() != nil && strings.HasSuffix(fn.Pkg().Path(), "/generator") {
+						for _, a := range x.Args {
+							if t := info.TypeOf(a); t != nil && strings.HasSuffix(t.String(), "/parser/v2.Expression") {
+								found = true
+							}
+						}
 					}
 				}
 				return !found
